@@ -255,3 +255,5 @@ func vpCIDRToken(name string, ip, netIP, mask []byte, text string) string { retu
 
 // vpStubIP tells the engine what net.ParseIP returns for a concrete text (natively the real parser runs).
 func vpStubIP(text string, ip16 []byte) {}
+
+func vpU16raw(name string) uint16 { return uint16(vpDraw(name)) }
